@@ -79,6 +79,8 @@ def build(case, ctx):
         records = same_name_family(case["s"], n + 2)
     elif case.get("i", 0) % 4 == 1:
         records = embedded_stream_family(case["s"], min(n, 5))
+    elif case.get("i", 0) % 8 == 4:
+        records = tiny_frame_family(case["s"], n)
     elif case.get("i", 0) % 4 == 3:
         # a file that was appended to by later writers (or parts joined with cat): every part starts with its own header
         # frame and announces its descriptors again; the parts share record types
@@ -134,6 +136,28 @@ def write_records(fileobj, records, carry_on):
                     crashed = e
         w.fp = None
     return ok, crashed
+
+
+def tiny_frame_family(seed, n):
+    """Field-less record types with names of every small length: their descriptor frames are the smallest frames the format
+    has and their ext payloads fall into each of msgpack's fixed-size ext classes (1, 2, 4, 8, 16 bytes) as well as just
+    beside them; records of one-field types with tiny values next to them."""
+    import random
+
+    from flow.record import RecordDescriptor
+
+    rng = random.Random(seed)
+    out = []
+    lengths = list(range(1, 21))
+    rng.shuffle(lengths)
+    for j, ln in enumerate(lengths[: max(n, 8)]):
+        name = ("ab/" * 7)[: ln - 1] + "z" if ln > 1 else "z"
+        name = name.replace("/z", "az") if name.endswith("/z") else name
+        if rng.random() < 0.7:
+            out.append(RecordDescriptor(name, [])())
+        else:
+            out.append(RecordDescriptor(name, [("varint", "v")])(v=rng.choice([0, 1, 127, 128, 255, 256, 65535, 65536])))
+    return out
 
 
 def same_name_family(seed, n):
